@@ -284,6 +284,39 @@ CLAIMED = {
         "DESIGN.md section 3, C17"),
 }
 
+# rules added in the later rounds, appended to the technique of each property
+EXTRA = {
+    "C01": "decoded values originate in extract_atomic_value (def-use), who-may-write the key "
+           "tables, origin window (no positional call after the origin is restored), "
+           "conversion-guard shapes of the compu methods",
+    "C02": "origin window rule shared with C01",
+    "C03": "conversion-guard shapes of the compu methods",
+    "C04": "conversion-guard shapes of the compu methods; terminator-in-value, float32 range "
+           "and implicit UnicodeEncodeError sites",
+    "C05": "implicit-raise catalogue incl. numeric format specs and next() on filtered "
+           "generators; progress rule for cursor-driven item loops (termination)",
+    "C06": "candidate loops found by the call on the loop variable; prefix look-ups followed "
+           "through dicts / pairs; no de-duplication under an equality that ignores the service",
+    "C07": "conversion-guard shapes of the compu methods",
+    "C08": "omission of an uncomputable SYSTEM parameter rejected centrally or locally",
+    "C10": "type-test coverage of the retarget recursion; save/reset pairing of the consulted "
+           "SnRefContext fields on the CFG (must-pass-through)",
+    "C11": "exact integer conversion of A_INT32 / A_UINT32 texts",
+    "C12": "soundness conditions of a remembered channel index (dominance of the store by the "
+           "successful lookup)",
+    "C13": "no state update reachable after a yield; None-passing callback arguments vs. "
+           "numeric uses in every override",
+    "C15": "getattr defaults must not hide attributes that the raw class of a wrapper has",
+    "C17": "None-guard of codec names with a reachable `return None`; placeholder objects built "
+           "after odxraise vs. dereferences in __post_init__",
+    "C18": "short names are never tested against NamedItemList.keys()",
+}
+COMMON = ("; shared over the property's scope: hidden-state rules (mutable defaults, memos keyed "
+          "by name, lazily cached values ignoring an argument, memoised methods, indexes derived "
+          "from lists that a later initialisation phase extends, containers that accumulate "
+          "across Database.refresh), absence tested by identity, description objects not "
+          "written at use time")
+
 NOT_APPLICABLE = {}
 
 PENDING = "checker under construction (see DESIGN.md section 3); not claimed yet"
@@ -306,7 +339,8 @@ def main() -> None:
                 "engine": "sa",
                 "level_claimed": {"category": "other", "text": text, "design_ref": ref},
                 "level_note": note,
-                "technique": "static analysis: " + tech,
+                "technique": "static analysis: " + tech + (
+                    "; " + EXTRA[pid] if pid in EXTRA else "") + COMMON,
             })
         else:
             na.append({"property_id": pid, "reason": NOT_APPLICABLE.get(pid, PENDING)})
